@@ -1,0 +1,316 @@
+//! Verification facade for `dns_parser.rs` (cargo feature `verif-hooks`).
+//!
+//! Plain-data views and thin wrappers over crate-private items; no logic of its own.
+//! This file is a child module of `dns_parser`, so it can read private fields.
+
+use super::*;
+use std::net::IpAddr;
+
+#[derive(Debug, Clone, PartialEq, Eq)]
+pub enum RDataView {
+    Addr {
+        ip: IpAddr,
+        if_name: String,
+        if_index: u32,
+    },
+    Ptr(String),
+    Srv {
+        priority: u16,
+        weight: u16,
+        port: u16,
+        host: String,
+    },
+    Txt(Vec<u8>),
+    Hinfo {
+        cpu: String,
+        os: String,
+    },
+    Nsec {
+        next: String,
+        bitmap: Vec<u8>,
+    },
+}
+
+#[derive(Debug, Clone, PartialEq, Eq)]
+pub struct RecView {
+    pub name: String,
+    pub new_name: Option<String>,
+    pub ty: u16,
+    pub class: u16,
+    pub flush: bool,
+    pub ttl: u32,
+    pub created: u64,
+    pub expires: u64,
+    pub refresh: u64,
+    pub rdata: RDataView,
+}
+
+#[derive(Debug, Clone, PartialEq, Eq)]
+pub struct QView {
+    pub name: String,
+    pub ty: u16,
+    pub class: u16,
+    pub flush: bool,
+}
+
+#[derive(Debug, Clone, PartialEq, Eq)]
+pub struct MsgView {
+    pub id: u16,
+    pub flags: u16,
+    pub questions: Vec<QView>,
+    pub answers: Vec<RecView>,
+    pub authorities: Vec<RecView>,
+    pub additionals: Vec<RecView>,
+}
+
+pub fn view_record(r: &dyn DnsRecordExt) -> RecView {
+    let rec = r.get_record();
+    let any = r.any();
+    let rdata = if let Some(a) = any.downcast_ref::<DnsAddress>() {
+        RDataView::Addr {
+            ip: a.address,
+            if_name: a.interface_id.name.clone(),
+            if_index: a.interface_id.index,
+        }
+    } else if let Some(p) = any.downcast_ref::<DnsPointer>() {
+        RDataView::Ptr(p.alias.clone())
+    } else if let Some(s) = any.downcast_ref::<DnsSrv>() {
+        RDataView::Srv {
+            priority: s.priority,
+            weight: s.weight,
+            port: s.port,
+            host: s.host.clone(),
+        }
+    } else if let Some(t) = any.downcast_ref::<DnsTxt>() {
+        RDataView::Txt(t.text.clone())
+    } else if let Some(h) = any.downcast_ref::<DnsHostInfo>() {
+        RDataView::Hinfo {
+            cpu: h.cpu.clone(),
+            os: h.os.clone(),
+        }
+    } else if let Some(n) = any.downcast_ref::<DnsNSec>() {
+        RDataView::Nsec {
+            next: n.next_domain.clone(),
+            bitmap: n.type_bitmap.clone(),
+        }
+    } else {
+        unreachable!("unknown record kind")
+    };
+    RecView {
+        name: rec.entry.name.clone(),
+        new_name: rec.new_name.clone(),
+        ty: rec.entry.ty as u16,
+        class: rec.entry.class,
+        flush: rec.entry.cache_flush,
+        ttl: rec.ttl,
+        created: rec.created,
+        expires: rec.expires,
+        refresh: rec.refresh,
+        rdata,
+    }
+}
+
+fn view_msg(m: &DnsIncoming) -> MsgView {
+    MsgView {
+        id: m.id,
+        flags: m.flags,
+        questions: m
+            .questions
+            .iter()
+            .map(|q| QView {
+                name: q.entry.name.clone(),
+                ty: q.entry.ty as u16,
+                class: q.entry.class,
+                flush: q.entry.cache_flush,
+            })
+            .collect(),
+        answers: m.answers.iter().map(|r| view_record(r.as_ref())).collect(),
+        authorities: m
+            .authorities
+            .iter()
+            .map(|r| view_record(r.as_ref()))
+            .collect(),
+        additionals: m
+            .additional
+            .iter()
+            .map(|r| view_record(r.as_ref()))
+            .collect(),
+    }
+}
+
+/// `DnsIncoming::new` on raw bytes.
+pub fn decode(data: &[u8], if_name: &str, if_index: u32) -> Option<MsgView> {
+    let intf = InterfaceId {
+        name: if_name.to_string(),
+        index: if_index,
+    };
+    DnsIncoming::new(data.to_vec(), intf).ok().map(|m| view_msg(&m))
+}
+
+/// Description of a record to be built with the crate's own constructors.
+#[derive(Debug, Clone)]
+pub struct RecDesc {
+    pub name: String,
+    pub ty: u16,
+    /// class including the cache-flush bit
+    pub class: u16,
+    pub ttl: u32,
+    pub rdata: RDataView,
+}
+
+pub fn build_record(d: &RecDesc) -> Option<DnsRecordBox> {
+    let ty = RRType::from_u16(d.ty)?;
+    Some(match &d.rdata {
+        RDataView::Addr {
+            ip,
+            if_name,
+            if_index,
+        } => DnsAddress::new(
+            &d.name,
+            ty,
+            d.class,
+            d.ttl,
+            *ip,
+            InterfaceId {
+                name: if_name.clone(),
+                index: *if_index,
+            },
+        )
+        .boxed(),
+        RDataView::Ptr(alias) => DnsPointer::new(&d.name, ty, d.class, d.ttl, alias.clone()).boxed(),
+        RDataView::Srv {
+            priority,
+            weight,
+            port,
+            host,
+        } => DnsSrv::new(
+            &d.name,
+            d.class,
+            d.ttl,
+            *priority,
+            *weight,
+            *port,
+            host.clone(),
+        )
+        .boxed(),
+        RDataView::Txt(t) => DnsTxt::new(&d.name, d.class, d.ttl, t.clone()).boxed(),
+        RDataView::Hinfo { cpu, os } => {
+            DnsHostInfo::new(&d.name, ty, d.class, d.ttl, cpu.clone(), os.clone()).boxed()
+        }
+        RDataView::Nsec { next, bitmap } => {
+            DnsNSec::new(&d.name, d.class, d.ttl, next.clone(), bitmap.clone()).boxed()
+        }
+    })
+}
+
+#[derive(Debug, Clone, Default)]
+pub struct MsgDesc {
+    pub flags: u16,
+    pub id: u16,
+    pub questions: Vec<(String, u16)>,
+    /// (record, `now` passed to `add_answer_at_time`)
+    pub answers: Vec<(RecDesc, u64)>,
+    pub authorities: Vec<RecDesc>,
+    pub additionals: Vec<RecDesc>,
+}
+
+/// Build a `DnsOutgoing` through the crate's own `add_*` calls.
+pub fn build_outgoing(d: &MsgDesc) -> Option<DnsOutgoing> {
+    let mut out = DnsOutgoing::new(d.flags);
+    out.set_id(d.id);
+    for (name, ty) in &d.questions {
+        out.add_question(name, RRType::from_u16(*ty)?);
+    }
+    for (r, now) in &d.answers {
+        let rec = build_record(r)?;
+        if *now == 0 || !rec.get_record().is_expired(*now) {
+            // `add_answer_at_time` takes `impl DnsRecordExt`; this is its body.
+            out.answers.push((rec, *now));
+        }
+    }
+    for r in &d.authorities {
+        out.add_authority(build_record(r)?);
+    }
+    for r in &d.additionals {
+        out.additionals.push(build_record(r)?);
+    }
+    Some(out)
+}
+
+/// `DnsOutgoing::to_data_on_wire` of a described message.
+pub fn encode(d: &MsgDesc) -> Option<Vec<Vec<u8>>> {
+    build_outgoing(d).map(|o| o.to_data_on_wire())
+}
+
+/// Handle over one boxed record, exposing the lifetime functions of `DnsRecord`.
+pub struct RecHandle(pub DnsRecordBox);
+
+impl RecHandle {
+    pub fn new(d: &RecDesc) -> Option<Self> {
+        build_record(d).map(RecHandle)
+    }
+    pub fn view(&self) -> RecView {
+        view_record(self.0.as_ref())
+    }
+    pub fn is_expired(&self, now: u64) -> bool {
+        self.0.get_record().is_expired(now)
+    }
+    pub fn expires_soon(&self, now: u64) -> bool {
+        self.0.get_record().expires_soon(now)
+    }
+    pub fn refresh_due(&self, now: u64) -> bool {
+        self.0.get_record().refresh_due(now)
+    }
+    pub fn halflife_passed(&self, now: u64) -> bool {
+        self.0.get_record().halflife_passed(now)
+    }
+    pub fn refresh_maybe(&mut self, now: u64) -> bool {
+        self.0.get_record_mut().refresh_maybe(now)
+    }
+    pub fn updated_refresh_time(&mut self, now: u64) -> Option<u64> {
+        self.0.updated_refresh_time(now)
+    }
+    pub fn refresh_no_more(&mut self) {
+        self.0.get_record_mut().refresh_no_more()
+    }
+    pub fn reset_ttl(&mut self, other: &RecHandle) {
+        self.0.reset_ttl(other.0.as_ref())
+    }
+    pub fn update_ttl(&mut self, now: u64) {
+        self.0.get_record_mut().update_ttl(now)
+    }
+    pub fn remaining_ttl(&self, now: u64) -> u32 {
+        self.0.get_record().get_remaining_ttl(now)
+    }
+    pub fn set_expire(&mut self, t: u64) {
+        self.0.set_expire(t)
+    }
+    pub fn set_expire_sooner(&mut self, t: u64) {
+        self.0.set_expire_sooner(t)
+    }
+    pub fn matches(&self, other: &RecHandle) -> bool {
+        self.0.matches(other.0.as_ref())
+    }
+    pub fn rrdata_match(&self, other: &RecHandle) -> bool {
+        self.0.rrdata_match(other.0.as_ref())
+    }
+    pub fn suppressed_by_answer(&self, other: &RecHandle) -> bool {
+        self.0.suppressed_by_answer(other.0.as_ref())
+    }
+    /// -1 / 0 / 1
+    pub fn compare(&self, other: &RecHandle) -> i8 {
+        match self.0.compare(other.0.as_ref()) {
+            cmp::Ordering::Less => -1,
+            cmp::Ordering::Equal => 0,
+            cmp::Ordering::Greater => 1,
+        }
+    }
+}
+
+pub fn expiration_time(created: u64, ttl: u32, percent: u32) -> u64 {
+    get_expiration_time(created, ttl, percent)
+}
+
+pub fn parse_escaped_name(name: &str) -> Vec<String> {
+    DnsOutPacket::parse_escaped_name(name)
+}
